@@ -15,8 +15,8 @@ KF = {
     "KF-C02-1": ("--kf-skip1", [ipcgen.kf1_repro("shm")],
                  "shm: with event notifications deferred (notification socket full) the client can consume every "
                  "notification byte before the server handles POLLOUT: poll() on qb_ipcc_fd_get() is not readable "
-                 "although events are queued (300 x qb_ipcs_event_send, 278 x qb_ipcc_event_recv: 22 events queued, "
-                 "descriptor not readable until the server's next POLLOUT dispatch)"),
+                 "although events are queued (600 x qb_ipcs_event_send, then qb_ipcc_event_recv until -EAGAIN: 278 delivered, "
+                 "322 events still queued, descriptor not readable until the server's next POLLOUT dispatch)"),
     "KF-C02-2": ("--kf-skip2", [ipcgen.kf2_repro(tr, call) for tr in ("shm", "sock") for call in ("SEventv", "SResp", "SRespv")],
                  "qb_ipcs_response_send, qb_ipcs_response_sendv and qb_ipcs_event_sendv accept a message longer than the "
                  "negotiated maximum (only qb_ipcs_event_send checks): with a receive buffer of the negotiated size the "
@@ -152,16 +152,16 @@ def run(ctx):
     ctx.log("harness switches:", skip or "none")
 
     # (3) spec -> code: TLC-generated call sequences (all of a small depth over a small alphabet, then long random walks)
-    hs = [to_program(h) for h in gen(ctx, "IpcMsgGen.cfg", "bfs", 3 if q else 4, tag="-bfs")]
+    hs = [to_program(h) for h in gen(ctx, "IpcMsgGen.cfg", "bfs", 3 if q else 5, tag="-bfs")]
     n_bfs = len(hs)
-    hs += [to_program(h) for h in gen(ctx, "IpcMsgGen_sim.cfg", "simulate", 40 if q else 60, num=300 if q else 6000, tag="-sim")]
+    hs += [to_program(h) for h in gen(ctx, "IpcMsgGen_sim.cfg", "simulate", 40 if q else 60, num=600 if q else 8000, tag="-sim")]
     n_sim = len(hs) - n_bfs
     # (4) code -> spec: directed scenarios and seeded random programs (bursts until the ring / the sockets refuse,
     #     flow control and rate limit toggled mid-stream, deferred notifications)
     progs = ipcgen.directed()
     n_dir = len(progs)
     rng = random.Random(ctx.seed * 7919 + 2)
-    for prof, nq, nt in (("mix", 60, 1500), ("reqburst", 16, 300), ("big", 40, 800), ("evburst", 6, 80)):
+    for prof, nq, nt in (("mix", 120, 3000), ("reqburst", 30, 600), ("big", 80, 1600), ("evburst", 10, 160)):
         progs += [ipcgen.program(rng, prof) for _ in range(nq if q else nt)]
     ctx.sample({"generated_history": hs[n_bfs][:30] if n_sim else hs[0]})
     ctx.sample({"directed_program": progs[n_dir - 3]})
@@ -176,7 +176,7 @@ def run(ctx):
     ctx.exec_validate(exe, allp, lambda p: p, "IpcMsgTrace.tla", "IpcMsgTrace.cfg", label="c02", harness_args=skip,
                       nshards=W if q else 2 * W, timeout=1500)
     clean_shm(ctx)
-    ctx.cov.update({"histories_tlc_exhaustive": n_bfs, "histories_tlc_exhaustive_depth": 3 if q else 4,
+    ctx.cov.update({"histories_tlc_exhaustive": n_bfs, "histories_tlc_exhaustive_depth": 3 if q else 5,
                     "histories_tlc_random_walk": n_sim, "programs_directed": n_dir,
                     "programs_random": len(progs) - n_dir, "exhaustive": True})
     ctx.assumptions += [
